@@ -99,3 +99,7 @@ def run(P: Program, R: Report, tier: str) -> None:
         "third-party callees are non-mutating unless listed in KNOWN_EXTERNAL_MUTATORS (networkx.relabel_nodes(copy=False), set_*_attributes, numpy.put/copyto/place/putmask, shuffle)",
         "aliasing is tracked through names, attributes, items, loop targets, views and returns; not through containers stored in locals and re-read by index",
     ]
+    # ---- R16.4 a lookup that is handed out is a plain dict: reading a missing id must not insert it
+    from .memo import no_autoinsert_lookup
+
+    no_autoinsert_lookup(P, R, "R16.4")
